@@ -144,7 +144,8 @@ func VerifC11_EHeap() {
 		if mutate {
 			// append!: changes exactly its target (the LVal named by target), seen through
 			// every reference to that same value; nothing else changes.
-			r = c11Load(env, "(append! "+target+" 91)")
+			elem := "9" + itoa(s+1) // a different element at every step: two writers into one cell must be told apart
+			r = c11Load(env, "(append! "+target+" "+elem+")")
 			if r.Type == lisp.LError {
 				for _, n := range live {
 					vAssert(c11Show(env, n) == before[n], "a refused append! changes nothing")
@@ -164,9 +165,9 @@ func VerifC11_EHeap() {
 			for _, n := range live {
 				after := c11Show(env, n)
 				if sameObj[n] {
-					want := strings.TrimSuffix(before[n], ")") + " 91)"
+					want := strings.TrimSuffix(before[n], ")") + " " + elem + ")"
 					if before[n] == "(vector)" {
-						want = "(vector 91)"
+						want = "(vector " + elem + ")"
 					}
 					vAssert(after == want, "append! adds exactly its argument to its target")
 				} else {
@@ -263,6 +264,16 @@ func VerifC11_EMap() {
 	} else {
 		vAssert(lisp.True(c11Load(env, "(key? m3 "+k1+")")), "dissoc of another key keeps this one")
 	}
+	// a "removal" of a key that is not there, and an "insert" of the value already there, still
+	// return a NEW map: mutating the result must not show through the argument
+	c11Load(env, "(set 'same (dissoc m \"not-there\"))")
+	c11Load(env, "(assoc! same \"fresh\" 1)")
+	vAssert(!lisp.True(c11Load(env, "(key? m \"fresh\")")), "dissoc of an absent key returns an independent map")
+	c11Load(env, "(set 'same2 (assoc m \"b\" 0))")
+	c11Load(env, "(dissoc! same2 \"b\")")
+	vAssert(lisp.True(c11Load(env, "(key? m \"b\")")), "assoc of an unchanged value returns an independent map")
+	c11Load(env, "(set 'emp (sorted-map)) (set 'emp2 (dissoc emp 'x)) (assoc! emp2 'x 1)")
+	vAssert(c11Show(env, "(length (keys emp))") == "0", "dissoc on an empty map returns an independent map")
 	// in-place variants change exactly their target, visible through every reference
 	c11Load(env, "(set 'alias m)")
 	c11Load(env, "(assoc! m "+k2+" v2)")
